@@ -96,6 +96,19 @@ class Drive:
             kw['delay'] = delay
         if mode == 'event':
             self.interp.queue(Event(name, **kw))
+        elif mode == 'multi_dec':
+            # queue(a, b) with Event instances carrying their own delays, the later argument being
+            # due EARLIER than the first one
+            d1 = (delay or 0) + 2
+            kw1 = dict(kw)
+            kw1['delay'] = d1
+            kw2 = dict(kw)
+            if uid is not None:
+                kw2['uid'] = str(uid) + 'b'
+            self.interp.queue(Event(name, **kw1), Event(name + '_2', **kw2))
+            self.qm.push('ext', self.interp.time + d1, uid, name)
+            self.qm.push('ext', self.interp.time + (delay or 0), kw2.get('uid'), name + '_2')
+            return
         elif mode == 'multi':
             # queue(a, b): two events in one call, the second one as an Event instance
             kw2 = dict(kw)
